@@ -75,7 +75,7 @@ var srcName = [nSrc]string{"path", "form", "query", "cookie", "header", "json"}
 
 // field keys as an application writes them in tags; only some are in canonical header form (header names are
 // case-insensitive, every other source is matched exactly)
-var keys = []string{"aa", "bB", "Cc", "dd-e", "Ee", "FF"}
+var keys = []string{"bB", "aa", "Cc", "dd-e", "Ee", "FF"}
 
 const hookKey = "Hk"
 
@@ -537,6 +537,13 @@ func refTexts(k *kindInfo, texts []string, isJSON bool, src string) outcome {
 	cv := conv
 	if isJSON {
 		cv = convJSON
+	} else {
+		// the blank-padded class travels percent-encoded (query string, url-encoded form)
+		dec := make([]string, len(texts))
+		for i, t := range texts {
+			dec[i] = strings.ReplaceAll(t, "%20", " ")
+		}
+		texts = dec
 	}
 	if k.shape != shSlice {
 		c, ok := cv(b, texts[0])
@@ -806,7 +813,7 @@ func describe(t TypeSpec, rr realReq) string {
 // ---------------------------------------------------------------------------------------
 // request enumeration
 
-// texts of source s for field index fi of kind k, rotation rot, class cls (0 valid, 1 empty, 2 bad1, 3 bad2)
+// texts of source s for field index fi of kind k, rotation rot, class cls (0 valid, 1 empty, 2 bad1, 3 bad2, 4 blank-padded)
 func srcTexts(k *kindInfo, s, fi, rot, cls int) []string {
 	b := k.base
 	v0 := b.valid[(s+rot+fi)%6]
@@ -823,6 +830,8 @@ func srcTexts(k *kindInfo, s, fi, rot, cls int) []string {
 		special = b.bad1
 	case 3:
 		special = b.bad2
+	case 4:
+		special = "%20" + v0 // a leading blank, percent-encoded for the query string / url-encoded form
 	}
 	var out []string
 	if cls == 0 {
@@ -859,6 +868,9 @@ func classAllowed(k *kindInfo, s, cls int) bool {
 		return b.bad1 != ""
 	case 3:
 		return b.bad2 != ""
+	case 4:
+		// a value with a leading blank: kept as it is for strings, a conversion error for everything else - in every shape
+		return s == srcQuery || s == srcForm
 	}
 	return true
 }
@@ -917,10 +929,10 @@ func singleReqs(k *kindInfo, rots []int, multipart bool) []ReqSpec {
 			if m&(1<<uint(s)) == 0 {
 				continue
 			}
-			for cls := 1; cls <= 3; cls++ {
+			for cls := 1; cls <= 4; cls++ {
 				if classAllowed(k, s, cls) {
 					out = append(out, ReqSpec{Vals: [][][]string{fieldVals(k, m, 0, 0, s, cls)}})
-					if multipart && s == srcForm {
+					if multipart && s == srcForm && cls != 4 {
 						out = append(out, ReqSpec{Vals: [][][]string{fieldVals(k, m, 0, 0, s, cls)}, Multipart: true})
 					}
 				}
@@ -1137,7 +1149,7 @@ func multiReqs(ks []*kindInfo) []ReqSpec {
 				if m&(1<<uint(s)) == 0 {
 					continue
 				}
-				for cls := 1; cls <= 3; cls++ {
+				for cls := 1; cls <= 4; cls++ {
 					if !classAllowed(k, s, cls) {
 						continue
 					}
